@@ -126,6 +126,11 @@ def scenarios(tier):
                         if where == "split" or (where == "inq" and la == 1 and wk == "complete"):
                             bound = 2  # these races need the worker to be resumed at once after the I/O thread queued the task
                         S.append((f"{fk}+{wk}[{where},la={la},w={workers}]", p, bound))
+    # a send error that is not a disconnect makes the *worker* take the close decision (will_close)
+    for la in (0, 1):
+        p = dict(pre=(R(1) + R(2)).decode("latin-1"), workers=1, lookahead=la, fault_menu=[22, -1], fault_sites=["send"], max_faults=1)
+        p["allowed"] = ["1", "2"]  # judged by executed-after-decision
+        S.append((f"send-error-while-serving[la={la}]", p, 1))
     # client EOF while a request runs and another is buffered behind it
     for la in (1, 2):
         p = dict(pre=(R(1) + R(2)).decode("latin-1"), workers=1, lookahead=la, segments=[("", "eof")], release=["go"], programs={"/r1": dict(body=["ok"], block="go")})
